@@ -179,4 +179,48 @@ def bodyWire (chunked : Bool) (pieces : List Bytes) : Bytes :=
     if chunked then hexOf false d.length ++ [13, 10] ++ d ++ [13, 10] else d
   if chunked then framed ++ [48, 13, 10, 13, 10] else framed
 
+/-! ### header folding of `make_environ`
+
+Input: `self.headers.items()` as `http.server` parsed them (outside the model). Output: the
+`HTTP_*` / `CONTENT_TYPE` / `CONTENT_LENGTH` entries of the environ, as an association list in
+dict insertion order. -/
+
+abbrev Str := List Char
+abbrev Env := List (Str × Str)
+
+def upperAscii (c : Char) : Char := if 'a' ≤ c ∧ c ≤ 'z' then Char.ofNat (c.toNat - 32) else c
+
+/-- `key.upper().replace("-", "_")` (header names are ASCII tokens) -/
+def envName (name : Str) : Str := name.map fun c => if c == '-' then '_' else upperAscii c
+
+/-- `value.replace("\r\n", "")` -/
+def dropCrlf : Str → Str
+  | '\r' :: '\n' :: t => dropCrlf t
+  | c :: t => c :: dropCrlf t
+  | [] => []
+
+def Env.get (env : Env) (k : Str) : Option Str := (env.find? (·.1 == k)).map (·.2)
+
+/-- `environ[k] = v`: an existing key keeps its position -/
+def Env.set : Env → Str → Str → Env
+  | [], k, v => [(k, v)]
+  | (k', v') :: rest, k, v => if k' == k then (k', v) :: rest else (k', v') :: Env.set rest k v
+
+def isContentKey (k : Str) : Bool := k == "CONTENT_TYPE".toList || k == "CONTENT_LENGTH".toList
+
+/-- one iteration of `for key, value in self.headers.items()` -/
+def foldHeader (env : Env) (h : Str × Str) : Env :=
+  if h.1.contains '_' then env
+  else
+    let key := envName h.1
+    let value := dropCrlf h.2
+    if isContentKey key then env.set key value
+    else
+      let key := "HTTP_".toList ++ key
+      match env.get key with
+      | some old => env.set key (old ++ ',' :: value)
+      | none => env.set key value
+
+def foldHeaders (hs : List (Str × Str)) : Env := hs.foldl foldHeader []
+
 end Wz.Chunked
